@@ -278,6 +278,10 @@ pub fn c03(ctx: &Ctx) -> Report {
         Some("chunked\t"),
         Some("gzip,\tchunked"),
         Some("compress|chunked"),
+        Some("x-chunked"),
+        Some("unchunked"),
+        Some("identity, X-Chunked"),
+        Some("chunked-v2"),
     ];
     let mut cases = Vec::new();
     for m in methods {
